@@ -82,6 +82,8 @@ def handTables : List (String × String × String × String) := [
   ("stdlib/unrestricted/unrestricted.go", "os/exec/exec", "Cmd", "typ os/exec.Cmd"),
   ("stdlib/unrestricted/unrestricted.go", "os/exec/exec", "Error", "typ os/exec.Error"),
   ("stdlib/unrestricted/unrestricted.go", "os/exec/exec", "ExitError", "typ os/exec.ExitError"),
+  -- added by 77e1d98 (C13 F13-6): with unrestricted.Symbols loaded, log.Default is the host's function again
+  ("stdlib/unrestricted/unrestricted.go", "log/log", "Default", "value log.Default"),
   ("stdlib/unrestricted/unrestricted.go", "log/log", "Fatal", "value log.Fatal"),
   ("stdlib/unrestricted/unrestricted.go", "log/log", "Fatalf", "value log.Fatalf"),
   ("stdlib/unrestricted/unrestricted.go", "log/log", "Fatalln", "value log.Fatalln"),
